@@ -187,6 +187,16 @@ func (w *World) buildQuery(o *Obligation, g *Gen, uses []string) string {
 			sb.WriteString(fmt.Sprintf("(declare-const %s %s)\n", name, g.decls[name]))
 		}
 	}
+	// pointers stored in the entry heap refer to objects that existed at entry
+	if all["H_Addr_0"] && all["fresh0"] {
+		sb.WriteString("(assert (forall ((a!h Addr)) (! (=> (and (< (oid a!h) fresh0) (not (= (select H_Addr_0 a!h) anil))) (and (<= 0 (oid (select H_Addr_0 a!h))) (< (oid (select H_Addr_0 a!h)) fresh0))) :pattern ((select H_Addr_0 a!h)))))\n")
+	}
+	if all["H_Slice_0"] && all["fresh0"] {
+		sb.WriteString("(assert (forall ((a!h Addr)) (! (=> (and (< (oid a!h) fresh0) (not (= (sarr (select H_Slice_0 a!h)) anil))) (and (<= 0 (oid (sarr (select H_Slice_0 a!h)))) (< (oid (sarr (select H_Slice_0 a!h))) fresh0))) :pattern ((select H_Slice_0 a!h)))))\n")
+	}
+	if all["H_Iface_0"] && all["fresh0"] {
+		sb.WriteString("(assert (forall ((a!h Addr)) (! (=> (and (< (oid a!h) fresh0) (not (= (select H_Iface_0 a!h) inil)) (not (= (iref (select H_Iface_0 a!h)) anil))) (and (<= 0 (oid (iref (select H_Iface_0 a!h)))) (< (oid (iref (select H_Iface_0 a!h))) fresh0))) :pattern ((select H_Iface_0 a!h)))))\n")
+	}
 	sb.WriteString(specText)
 	sb.WriteString(autoText)
 	sb.WriteString(axText)
